@@ -166,12 +166,96 @@ fn cli_cases(out: &mut Out, scratch: &str) {
             out.case(&format!("c09 cli {kind} {check} {diff}"), &format!("{status} {file}"));
         }
     }
+    // a directory with several files: every file is handled independently of the ones before it
+    let kinds = [("f1.incn", unformatted), ("f2.incn", formatted.as_str()), ("f3.incn", unformatted), ("f4.incn", broken), ("f5.incn", unformatted)];
+    for (check, diff) in [(false, false), (true, false), (false, true), (true, true)] {
+        let d2 = format!("{dir}/multi");
+        let _ = std::fs::remove_dir_all(&d2);
+        std::fs::create_dir_all(&d2).expect("mkdir");
+        for (name, src) in kinds {
+            std::fs::write(format!("{d2}/{name}"), src).expect("write");
+        }
+        let res = catch(|| incan::cli::commands::format_files(&d2, check, diff));
+        let status = match res {
+            Ok(Ok(_)) => "exit0",
+            Ok(Err(_)) => "exit1",
+            Err(_) => "panic",
+        };
+        let mut files = Vec::new();
+        for (name, src) in kinds {
+            let after = std::fs::read_to_string(format!("{d2}/{name}")).unwrap_or_default();
+            files.push(if after == src { "unchanged" } else if after == formatted { "rewritten-formatted" } else { "rewritten-other" });
+        }
+        out.case(&format!("c09 clidir {check} {diff}"), &format!("{status} {}", files.join(",")));
+    }
     let _ = std::fs::remove_dir_all(&dir);
+}
+
+fn gen_import(rng: &mut Rng) -> String {
+    let seg = |rng: &mut Rng| rng.pick(&["a", "b", "util", "models", "x1"]).to_string();
+    let path = |rng: &mut Rng, sep: &str| {
+        let n = 1 + rng.below(3);
+        (0..n).map(|_| seg(rng)).collect::<Vec<_>>().join(sep)
+    };
+    let prefix = match rng.below(6) {
+        0 => "crate::".to_string(),
+        1 => "super::".repeat(1 + rng.below(3) as usize),
+        2 => ".".repeat(2),
+        _ => String::new(),
+    };
+    let items = |rng: &mut Rng| {
+        let n = 1 + rng.below(3);
+        (0..n)
+            .map(|i| if rng.chance(1, 3) { format!("it{i} as al{i}") } else { format!("it{i}") })
+            .collect::<Vec<_>>()
+            .join(", ")
+    };
+    match rng.below(6) {
+        0 => format!("import {}{}", if prefix.starts_with('.') { String::new() } else { prefix.clone() }, path(rng, "::")),
+        1 => format!("import {} as al", path(rng, "::")),
+        2 => format!("from {}{} import {}", prefix, path(rng, if prefix.starts_with('.') { "." } else { "::" }), items(rng)),
+        3 => format!("from {} import {}", path(rng, "."), items(rng)),
+        4 => format!("import rust::{}", path(rng, "::")),
+        _ => format!("from rust::{} import {}", path(rng, "::"), items(rng)),
+    }
+}
+
+fn gen_stmt(rng: &mut Rng) -> String {
+    let e = |rng: &mut Rng| {
+        let d = 1 + rng.below(3) as u32;
+        gen_expr(rng, d)
+    };
+    let op = *rng.pick(&["+=", "-=", "*=", "/=", "//=", "%="]);
+    match rng.below(9) {
+        0 => format!("p.x {op} {}", e(rng)),
+        1 => format!("xs[{}] {op} {}", e(rng), e(rng)),
+        2 => format!("a {op} {}", e(rng)),
+        3 => format!("p.x = {}", e(rng)),
+        4 => format!("xs[{}] = {}", e(rng), e(rng)),
+        5 => format!("return {}", e(rng)),
+        6 => "return".to_string(),
+        7 => format!("let q: int = {}", e(rng)),
+        _ => format!("mut r = {}", e(rng)),
+    }
 }
 
 pub fn run(out: &mut Out, tier: &str, seed: u64) {
     let mut rng = Rng::new(seed);
     cli_cases(out, "/verif/.build/scratch");
+    let n_small = if tier == "thorough" { 6_000 } else { 600 };
+    for i in 0..n_small {
+        let imp = gen_import(&mut rng);
+        if let Some(v) = verdict(&format!("{imp}\n")) {
+            let dump = if v != "ok" { enc_str(&imp) } else { "-".to_string() };
+            out.case(&format!("fmt import {i} {dump}"), &v);
+        }
+        let st = gen_stmt(&mut rng);
+        let src = format!("def g(a: int, b: int, x: float, s: str, xs: List[int], p: P) -> None:\n    {st}\n");
+        if let Some(v) = verdict(&src) {
+            let dump = if v != "ok" { enc_str(&st) } else { "-".to_string() };
+            out.case(&format!("fmt stmt {i} {dump}"), &v);
+        }
+    }
     let mut sources = corpus::files();
     if let Ok(rd) = std::fs::read_dir("/verif/corpus/fmt") {
         let mut ps: Vec<_> = rd.flatten().map(|e| e.path()).collect();
